@@ -11,6 +11,7 @@ RULE = (
     "{float32,float64,int64}; per case: encode shape (.., b*n), inverse_encode -> (message, zero syndrome), extract_message, project_word; "
     "rejection for last dimension b*k+-1 / b*n+-1. Distinct = (object, layout, b, dtype, message-batch digest); non-trivial = batch contains a non-zero message."
     " Added after the seeded-fault rounds: same catalogue additions as C01 (index-list information sets for cyclic/BCH, int64 generators, wide same-shaped groups), units grouped by family and (n,k)."
+    " Round 5: form axis of the catalogue (deep copy, .double(), .double().float(), state_dict twin)."
 )
 ASSUMPTIONS = [
     "exact tensor equality against the message that was fed (after value comparison across dtypes)",
